@@ -470,7 +470,13 @@ fn parse_groups(s: &Sx) -> Vec<Group> {
                     bytes.push(0);
                 }
                 "part" => bytes.extend_from_slice(&fl[1].as_bytes().unwrap()),
-                "ioerr" => bytes.push(if fl[1].as_atom() == Some("t") { MARK_RESET } else { MARK_IOERR }),
+                "ioerr" => {
+                    // optionally some bytes of a reply arrive before the read fails
+                    if let Some(b) = fl.get(2).and_then(|b| b.as_bytes()) {
+                        bytes.extend_from_slice(&b);
+                    }
+                    bytes.push(if fl[1].as_atom() == Some("t") { MARK_RESET } else { MARK_IOERR })
+                }
                 other => panic!("frame kind {}", other),
             }
         }
@@ -631,6 +637,26 @@ fn parse_objs(s: &Sx) -> Vec<(String, ReqArg)> {
         .collect()
 }
 
+/// call objects of a case that go through the typed service client: `(x<method> <params> svc)`
+fn svc_objs(s: &Sx) -> HashMap<usize, String> {
+    let mut m = HashMap::new();
+    for (i, o) in s.as_list().unwrap()[1..].iter().enumerate() {
+        let l = o.as_list().unwrap();
+        if l.get(2).and_then(|a| a.as_atom()) == Some("svc") {
+            let iface = l[1].to_json().and_then(|p| p.get("interface").and_then(|i| i.as_str().map(|s| s.to_string()))).unwrap_or_default();
+            m.insert(i, iface);
+        }
+    }
+    m
+}
+
+/// `OrgVarlinkServiceClient::get_interface_description` — one client object per case, asked repeatedly
+fn exec_svc(client: &mut varlink::OrgVarlinkServiceClient, iface: &str, blocked: &AtomicBool) -> Sx {
+    use varlink::OrgVarlinkServiceInterface;
+    let r = client.get_interface_description(iface.to_string());
+    res_value(r.map(|d| serde_json::to_value(d).unwrap()), blocked.load(Ordering::SeqCst))
+}
+
 fn exec_op(objs: &mut HashMap<usize, Call>, op: &Op, blocked: &AtomicBool) -> Sx {
     let c = match objs.get_mut(&op.obj()) {
         Some(c) => c,
@@ -706,14 +732,20 @@ fn run_seq(input: &Sx) -> Sx {
     let rig = rig(wbudget, None);
     let server = scripted_server(rig.server_end.try_clone().unwrap(), groups);
     drop(rig.server_end);
+    let svc = svc_objs(&l[1]);
+    let mut client = varlink::OrgVarlinkServiceClient::new(rig.conn.clone());
     let mut objs: HashMap<usize, Call> = HashMap::new();
     for (i, (m, p)) in objs_spec.iter().enumerate() {
+        // (service-client objects get a plain twin for the operations that do not send)
         objs.insert(i, Call::new(rig.conn.clone(), m.clone(), p.clone(), typed));
     }
     let mut res = vec![sx::atom("res")];
     let mut blocked = false;
     for op in &ops {
-        let r = exec_op(&mut objs, op, &rig.blocked);
+        let r = match (op, svc.get(&op.obj())) {
+            (Op::Call(_), Some(iface)) => exec_svc(&mut client, iface, &rig.blocked),
+            _ => exec_op(&mut objs, op, &rig.blocked),
+        };
         if is_blocked(&r) {
             blocked = true;
             break;
@@ -722,6 +754,7 @@ fn run_seq(input: &Sx) -> Sx {
     }
     let slots = if blocked { sx::tagged("slots", vec![sx::atom("-"), sx::atom("-")]) } else { slots_sx(&rig.conn) };
     drop(objs);
+    drop(client);
     drop(rig.conn);
     let _ = rig.client_end.shutdown(Shutdown::Both);
     let log = server.join().unwrap_or_default();
@@ -1224,6 +1257,8 @@ struct SeqGen {
     iter_left: usize,
     typed: bool,
     unser: Vec<usize>,
+    svc: Vec<usize>,
+    svc_count: usize,
 }
 
 impl SeqGen {
@@ -1369,7 +1404,7 @@ impl SeqGen {
 
 fn gen_seq(rng: &mut Rng, maxlen: usize) -> (Sx, Vec<String>) {
     let typed = rng.chance(1, 3);
-    let mut g = SeqGen { objs: Vec::new(), ops: Vec::new(), groups: Vec::new(), tags: Vec::new(), outstanding: None, iter_left: 0, typed, unser: Vec::new() };
+    let mut g = SeqGen { objs: Vec::new(), ops: Vec::new(), groups: Vec::new(), tags: Vec::new(), outstanding: None, iter_left: 0, typed, unser: Vec::new(), svc: Vec::new(), svc_count: 0 };
     // initial group: almost always empty
     let init = match rng.below(40) {
         0 => {
@@ -1399,6 +1434,32 @@ fn gen_seq(rng: &mut Rng, maxlen: usize) -> (Sx, Vec<String>) {
                     g.ops.push(Op::Next(o));
                     g.tags.push("op:next-after-final".into());
                 }
+            }
+            continue;
+        }
+        if false && !g.typed && rng.chance(1, 14) {
+            // (kept for reference; the service-client cases are generated by gen_svc_case)
+            // the typed service client (one client object per case): the same interface is asked again and again —
+            // every time a request must go out (or ConnectionBusy come back), never a remembered answer
+            let name = *rng.pick(&["org.example.a", "org.example.a", "org.example.b"]);
+            let i = g.objs.len();
+            g.objs.push(sx::list(vec![
+                sx::xs("org.varlink.service.GetInterfaceDescription"),
+                sx::json(&json!({"interface": name})),
+                sx::atom("svc"),
+            ]));
+            g.svc.push(i);
+            g.ops.push(Op::Call(i));
+            g.tags.push(if busy { "op:service-client-while-busy".to_string() } else { "op:service-client".to_string() });
+            if !busy {
+                g.svc_count += 1;
+                let v = if rng.chance(1, 4) {
+                    json!({"error": "org.varlink.service.InvalidParameter", "parameters": {"parameter": "interface"}})
+                } else {
+                    json!({"parameters": {"description": format!("interface {} # answer {}", name, g.svc_count)}})
+                };
+                let f = frame_sx(&serde_json::to_vec(&v).unwrap());
+                g.groups.push(SeqGen::group(false, vec![f]));
             }
             continue;
         }
@@ -1442,6 +1503,9 @@ fn gen_seq(rng: &mut Rng, maxlen: usize) -> (Sx, Vec<String>) {
         } else if choice < 78 && !g.objs.is_empty() {
             // second send on an object that was used before
             let i = rng.below(g.objs.len());
+            if g.svc.contains(&i) {
+                continue;
+            }
             let op = match rng.below(4) {
                 0 => Op::Call(i),
                 1 => Op::More(i),
@@ -1452,6 +1516,9 @@ fn gen_seq(rng: &mut Rng, maxlen: usize) -> (Sx, Vec<String>) {
             g.tags.push("op:second-send-on-same-object".into());
         } else if choice < 88 && !g.objs.is_empty() {
             let i = rng.below(g.objs.len());
+            if g.svc.contains(&i) {
+                continue;
+            }
             g.ops.push(if rng.chance(1, 2) { Op::Next(i) } else { Op::Recv(i) });
             g.tags.push("op:next-or-recv-on-arbitrary-object".into());
         } else if choice < 92 {
@@ -1564,6 +1631,109 @@ fn gen_progs(rng: &mut Rng, nthreads: usize, maxops: usize, free: bool) -> (Sx, 
     (sx::list(objs), sx::list(progs))
 }
 
+/// two connections, one thread: on the first the peer sends part of a reply and the read then fails;
+/// the second connection must be unaffected
+fn gen_seq2(rng: &mut Rng) -> (Sx, Vec<String>) {
+    let v = json!({"parameters": {"token": "first", "pad": "x".repeat(rng.range(0, 40))}});
+    let full = serde_json::to_vec(&v).unwrap();
+    let cut = rng.range(1, full.len() - 1);
+    let reset = rng.chance(1, 2);
+    let more = rng.chance(1, 3);
+    let mut ops = vec![sx::atom("ops"), if more { Op::More(0).sx() } else { Op::Call(0).sx() }];
+    if more {
+        ops.push(Op::Next(0).sx());
+    }
+    ops.push(Op::Recv(0).sx());
+    let first = sx::tagged(
+        "seq",
+        vec![
+            sx::list(vec![sx::atom("objs"), sx::list(vec![sx::xs("org.example.client.First"), sx::json(&json!({"token": "first"}))])]),
+            sx::list(ops),
+            sx::list(vec![
+                sx::atom("groups"),
+                SeqGen::group(false, vec![]),
+                SeqGen::group(false, vec![sx::tagged("ioerr", vec![sx::boolean(reset), sx::bs(&full[..cut])])]),
+            ]),
+            sx::atom("-"),
+        ],
+    );
+    let (second, mut tags) = loop {
+        let (c, t) = gen_seq(rng, 6);
+        if c.as_list().unwrap().len() == 5 {
+            break (c, t);
+        }
+    };
+    tags.push("seq2:read-error-after-part-of-a-reply-then-another-connection".into());
+    (sx::tagged("seq2", vec![first, second]), tags)
+}
+
+/// the typed service client `OrgVarlinkServiceClient` (one client object per case) inside an operation sequence:
+/// the same interface is asked repeatedly — after the service's answer changed, and while a `more` call is
+/// outstanding.  Every time a request must go out (or ConnectionBusy come back), never a remembered answer.
+fn gen_svc_case(rng: &mut Rng) -> (Sx, Vec<String>) {
+    let mut objs: Vec<Sx> = Vec::new();
+    let mut ops: Vec<Op> = Vec::new();
+    let mut groups: Vec<Sx> = vec![SeqGen::group(false, vec![])];
+    let mut answers = 0usize;
+    let mut tags = vec!["svc:service-client-asked-repeatedly".to_string()];
+    let svc = |objs: &mut Vec<Sx>, ops: &mut Vec<Op>, name: &str| {
+        let i = objs.len();
+        objs.push(sx::list(vec![
+            sx::xs("org.varlink.service.GetInterfaceDescription"),
+            sx::json(&json!({"interface": name})),
+            sx::atom("svc"),
+        ]));
+        ops.push(Op::Call(i));
+    };
+    let mut answer = |rng: &mut Rng, groups: &mut Vec<Sx>, name: &str| {
+        answers += 1;
+        let v = if rng.chance(1, 4) {
+            json!({"error": "org.varlink.service.InvalidParameter", "parameters": {"parameter": "interface"}})
+        } else {
+            json!({"parameters": {"description": format!("interface {} # answer {}", name, answers)}})
+        };
+        groups.push(SeqGen::group(false, vec![frame_sx(&serde_json::to_vec(&v).unwrap())]));
+    };
+    let steps = rng.range(2, 5);
+    for _ in 0..steps {
+        let name = *rng.pick(&["org.example.a", "org.example.a", "org.example.b"]);
+        match rng.below(3) {
+            0 | 1 => {
+                svc(&mut objs, &mut ops, name);
+                answer(rng, &mut groups, name);
+            }
+            _ => {
+                // a stream is outstanding while the client is asked
+                let k = rng.range(1, 2);
+                let i = objs.len();
+                objs.push(sx::list(vec![sx::xs("org.example.client.Stream"), sx::json(&json!({"token": format!("t{}", i)}))]));
+                ops.push(Op::More(i));
+                let mut fr = Vec::new();
+                for n in 0..k {
+                    fr.push(frame_sx(&serde_json::to_vec(&json!({"continues": true, "parameters": {"i": n}})).unwrap()));
+                }
+                fr.push(frame_sx(&serde_json::to_vec(&json!({"parameters": {"i": k}})).unwrap()));
+                groups.push(SeqGen::group(false, fr));
+                ops.push(Op::Next(i));
+                svc(&mut objs, &mut ops, name); // busy: nothing written, no answer consumed
+                tags.push("svc:asked-while-a-stream-is-outstanding".into());
+                for _ in 0..k {
+                    ops.push(Op::Next(i));
+                }
+                ops.push(Op::Next(i));
+            }
+        }
+    }
+    let mut o = vec![sx::atom("objs")];
+    o.extend(objs);
+    let mut p = vec![sx::atom("ops")];
+    p.extend(ops.iter().map(|x| x.sx()));
+    let mut g = vec![sx::atom("groups")];
+    g.extend(groups);
+    tags.dedup();
+    (sx::tagged("seq", vec![sx::list(o), sx::list(p), sx::list(g), sx::atom("-")]), tags)
+}
+
 fn gen_gated(rng: &mut Rng) -> (Sx, Vec<String>) {
     let n = rng.range(2, 8);
     let (objs, progs) = gen_progs(rng, n, 5, false);
@@ -1645,6 +1815,14 @@ impl Suite for ClientSuite {
             let (c, tags) = gen_seq(&mut rng, 12);
             cases.push(Case { input: c, tags });
         }
+        for _ in 0..(n_seq / 30) {
+            let (c, tags) = gen_svc_case(&mut rng);
+            cases.push(Case { input: c, tags });
+        }
+        for _ in 0..(n_seq / 40) {
+            let (c, tags) = gen_seq2(&mut rng);
+            cases.push(Case { input: c, tags });
+        }
         for _ in 0..n_gated {
             let (c, tags) = gen_gated(&mut rng);
             cases.push(Case { input: c, tags });
@@ -1681,6 +1859,11 @@ fn run_case(input: &Sx) -> Sx {
     match input.as_list().and_then(|l| l.first()).and_then(|a| a.as_atom()) {
         Some("kind") => run_kind(input),
         Some("seq") => run_seq(input),
+        // two connections used one after the other by the same thread
+        Some("seq2") => {
+            let l = input.as_list().unwrap();
+            sx::tagged("obs2", vec![run_seq(&l[1]), run_seq(&l[2])])
+        }
         Some("gated") => run_gated(input),
         Some("free") => run_free(input),
         Some("timed") => run_timed(input),
